@@ -200,6 +200,8 @@ def context(kind, taken):
             "\n".join("    pub struct %s;" % t for t in tys), "\n".join("    pub trait %s {}" % t for t in trs)))
     if kind in ("fns", "all"):
         out.append("".join("#[allow(dead_code)]\nfn %s() {}\n" % f for f in FREE_FNS if f not in taken))
+        # local modules named like the crates the generated paths start with: only `::core::..` is safe
+        out.append("".join("#[allow(dead_code)]\npub mod %s {}\n" % m for m in ("core", "std", "alloc") if m not in taken))
     if kind in ("macros",):
         out.append("".join("#[allow(unused_macros)]\nmacro_rules! %s { ($($t:tt)*) => { compile_error!(\"user macro `%s` "
                            "was picked up by generated code\") }; }\n" % (m, m) for m in MACROS))
@@ -289,6 +291,26 @@ def directed(pool):
                         "    #[educe(Debug(method(%szz_dbg)))]\n    pub b: u8,\n}\n"
                         "#[derive(::educe::Educe)]\n#[educe(%s)]\npub enum Ty2 {\n    #[educe(Default)]\n    V(u16, u8),\n    W { k: u16, #[educe(Debug(method(%szz_dbg)))] j: u8 },\n    U,\n}\n"
                         % (x, ALL9, RT, ALL9.replace("Debug", "Debug(name = true)"), RT)))
+        # the derived type itself carries the name
+        out.append(("own-name", x,
+                    "#[derive(::educe::Educe)]\n#[educe(%s, Into(u16))]\npub struct %s {\n    pub k: u16,\n    #[educe(Debug(method(%szz_dbg)))]\n    pub j: u8,\n}\n"
+                    % (ALL9, x, RT)))
+        out.append(("own-name", x,
+                    "#[derive(::educe::Educe)]\n#[educe(%s)]\npub enum %s {\n    #[educe(Default)]\n    V(u16, #[educe(Debug(method(%szz_dbg)))] u8),\n    W { k: u16 },\n    U,\n}\n"
+                    % (ALL9.replace("Debug", "Debug(name = true)"), x, RT)))
+        out.append(("own-name", x,
+                    "#[derive(::educe::Educe)]\n#[educe(Debug(unsafe), PartialEq(unsafe), Eq, Hash(unsafe), Clone, Copy, Default)]\npub union %s {\n    #[educe(Default)]\n    pub k: u32,\n    pub j: [u8; 4],\n}\n" % x))
+        # a trait of that name bounds a parameter in the where-clause (which is copied onto helper impls)
+        out.append(("where-trait", x,
+                    "pub trait %s {}\nimpl %s for u8 {}\n#[derive(::educe::Educe)]\n#[educe(Debug, Clone, PartialEq, Hash)]\npub struct Ty<T> where T: %s {\n"
+                    "    #[educe(Debug(method(%szz_dbg)))]\n    pub k: T,\n    pub j: u8,\n}\n"
+                    "#[derive(::educe::Educe)]\n#[educe(Debug, Clone, PartialEq, Hash)]\npub enum Ty2<T> where T: %s {\n    V(#[educe(Debug(method(%szz_dbg)))] T, u8),\n    W { k: T },\n}\n"
+                    % (x, x, x, RT, x, RT)))
+        # the name as a generic argument of the method path, in the path and the string spelling
+        for sp in ("method(zz_typed::<%s>)", "method = zz_typed::<%s>", "method = \"zz_typed::<%s>\"", "method(\"zz_typed::<%s>\")"):
+            out.append(("method-path-argument", x,
+                        "pub struct %s {}\npub fn zz_typed<Q>(v: &u8, f: &mut ::core::fmt::Formatter<'_>) -> ::core::fmt::Result { ::core::fmt::Debug::fmt(v, f) }\n"
+                        "#[derive(::educe::Educe)]\n#[educe(Debug)]\npub struct Ty {\n    #[educe(Debug(%s))]\n    pub k: u8,\n    pub j: u8,\n}\n" % (x, sp % x)))
         # the name together with its lengthened forms, longest first: a fresh name must avoid all of them at once
         chain = [x + x[-1] * 2, x + x[-1], x]
         out.append(("type-param-chain", x,
